@@ -154,7 +154,10 @@ def run(eng, ctx):
         pos = parse.params.index("labelmsm") if "labelmsm" in parse.params else None
         v = kw.get("labelmsm", e.term[3][pos] if pos is not None and pos < len(e.term[3]) else None)
         ctx.check(v == ("field", rf), "C16.D3", asm.qualname, "hop 2: option passed to the static parser", expected=f"labelmsm=self.{rf}", found=show(v)[:40] if v else "default (option dropped)", **eng.loc(asm, e.node))
-    ctx.check(len(pcs) == 1, "C16.D3", asm.qualname, "parse call", expected="1", found=str(len(pcs)), **eng.loc(asm, asm.node))
+    if not pcs and not eng.parse_in_assembler:
+        ctx.undecided("C16.D3", asm.qualname, "parse call", detail=eng.NOT_FOLLOWED, **eng.loc(asm, asm.node))
+    else:
+        ctx.check(len(pcs) == 1, "C16.D3", asm.qualname, "parse call", expected="1", found=str(len(pcs)), **eng.loc(asm, asm.node))
     sp = eng.symeval(parse.qualname)
     ctors = [e for e in sp.effects if e.kind == "call" and e.term[2] == ("class", eng.message_cls)]
     for e in ctors:
